@@ -113,7 +113,18 @@ def interleavings(xs, ys):
         yield [ys[0]] + rest
 
 
-def direct_differential(run, tier, prefixes=('C07.',)):
+def interleavings_n(seqs):
+    """all merges of several sequences that keep each one's own order"""
+    seqs = [q for q in seqs if q]
+    if not seqs:
+        yield []
+        return
+    for k, q in enumerate(seqs):
+        for rest in interleavings_n(seqs[:k] + [q[1:]] + seqs[k + 1:]):
+            yield [q[0]] + rest
+
+
+def direct_differential(run, tier, prefixes=('C07.',), extras=True):
     """Client 1's conversation (incl. reloads of the service table on its time line, MORE challenges and their answers) is run
     alone and with every interleaving of a second client's traffic; everything written about client 1 must be the same up to
     the serial in its tag.  Covers what the product search leaves out: reload events and challenge-response flows."""
@@ -224,7 +235,88 @@ def direct_differential(run, tier, prefixes=('C07.',)):
                         run.violation('C07.interleaving', 'client 1 (%s) with client 2 (%s) interleaved as [%s]: %s; alone: %s'
                                       % (xn, yn, ' | '.join(proto.ev_str(e) for e in mix), got[k] if k is not None else got, base[k] if k is not None else base),
                                       {'engine': 'E1-direct', 'conf': conf, 'x': xn, 'y': yn, 'mix': [list(e) for e in mix]}, dedup='direct|%s|%s' % (xn, yn))
-    return {'direct_differential_traces': n, 'direct_differential_histories': {'client1': list(X), 'client2': list(Y)}}
+        # ---- three clients: the one under observation has the HIGHEST id and is the oldest; a younger one on a lower id stays pending while a third
+        # comes and goes (whatever the daemon derives from "the first / oldest / lowest request" is then not about the observed client)
+        n3 = 0
+        def about(res, syms, who):
+            rec = []
+            for ev, r in zip(syms, res):
+                mine = [psearch._norm_line(l) for l in r.out if (l.startswith('X ') and l.split(' ')[2].split('_')[0] == str(who)) or (len(l.split(' ')) > 1 and l.split(' ')[1] == str(who) and l[0] in proto.CLIENT_CMDS)]
+                if len(ev) > 1 and ev[1] == who:
+                    rec.append((proto.ev_str(ev), tuple(mine)))
+                elif mine:
+                    rec.append(('!during %s' % proto.ev_str(ev), tuple(mine)))
+            return rec
+        V3 = {'login-then-drone': [('C', 3), ('P', 3, 'x'), ('H', 3), ('X', 3, 'login.svc', 'cur', 'OKA'), ('X', 3, 'drone.svc', 'cur', 'OK')],
+              'refused': [('C', 3), ('H', 3), ('P', 3, 'x'), ('X', 3, 'drone.svc', 'cur', 'OK'), ('X', 3, 'login.svc', 'cur', 'NO')]}
+        A1 = {'pending': [('C', 1)], 'pending-query': [('C', 1), ('P', 1, 'x')]}
+        B2 = {'withdrawn': [('C', 2), ('D', 2)], 'registered': [('C', 2), ('T', 2)], 'decided': [('C', 2), ('H', 2), ('X', 2, 'drone.svc', 'cur', 'OK')]}
+        for vn, vs in (V3.items() if extras else ()):
+            res, status, err, ex = srv.trace(concrete(srv, vs), 0)
+            if status != 'ok':
+                if run.violations or run.capped:
+                    continue
+                raise common.HarnessError('three-client differential: baseline %s died: %s' % (vn, status))
+            base3 = about(res, vs, 3)
+            for an, as_ in A1.items():
+                for bn, bs in B2.items():
+                    if run.out_of_time(60):
+                        run.cap('three-client differential cut short')
+                        break
+                    for mix in interleavings_n([vs, as_, bs]):
+                        res, status, err, ex = srv.trace(concrete(srv, mix), 0)
+                        n3 += 1
+                        got = about(res, mix, 3) if status == 'ok' else status
+                        if got != base3 and any(p.startswith('C07') for p in prefixes):
+                            k = next((i for i in range(min(len(got), len(base3))) if got[i] != base3[i]), None) if isinstance(got, list) else None
+                            run.violation('C07.interleaving3', 'client 3 (%s) with client 1 (%s) and client 2 (%s) interleaved as [%s]: %s; alone: %s'
+                                          % (vn, an, bn, ' | '.join(proto.ev_str(e) for e in mix), got[k] if k is not None else got, base3[k] if k is not None else base3),
+                                          {'engine': 'E1-direct', 'conf': conf, 'mix': [list(e) for e in mix]}, dedup='direct3|%s' % vn)
+        # ---- the same conversation behind other clients' traffic delivered in one burst: the daemon reads its input in 4096-byte pieces, and where a
+        # piece ends depends only on how much OTHER clients' traffic is queued ahead.  For every byte offset o of client 1's conversation the burst is
+        # sized so that the first (and, separately, the second) read boundary falls exactly at o; what is written about client 1 must not change.
+        nb = 0
+        conv = ['1 C 10.0.0.1 1111 10.9.9.9 6667', '1 N host1.example.net', '1 u ident1', '1 n Nick1', '1 U user1 :Real Name One', '1 P :+x acct1 pass1',
+                '-1 X login.svc 1_2 :MORE say more', '1 P :the answer', '-1 X login.svc 1_2 :OK acct1:7', '-1 X drone.svc 1_2 :OK']
+        conv_b = ('\n'.join(conv) + '\n').encode()
+        head = b'2 C 10.0.0.2 2222 10.9.9.9 6667\n'
+        def about1_flat(res):
+            return [psearch._norm_line(l) for r in res for l in r.out if (l.startswith('X ') and l.split(' ')[2].split('_')[0] == '1') or (len(l.split(' ')) > 1 and l.split(' ')[1] == '1' and l[0] in proto.CLIENT_CMDS)]
+        def filler(nbytes):
+            body = b''
+            k = 0
+            while len(head) + len(body) + 40 < nbytes:
+                body += b'2 n Nick%04d\n' % k
+                k += 1
+            pad = nbytes - len(head) - len(body)
+            # the rest is one more line of client 2's traffic, padded to the byte
+            last = b'2 N ' + b'h' * max(pad - 5, 1) + b'\n'
+            return head + body + last
+        if extras:
+            res, status, err, ex = srv.trace([('L', head)] + [('L', (l + '\n').encode()) for l in conv], 0)
+        base_b = about1_flat(res) if extras and status == 'ok' else None
+        if not extras:
+            pass
+        elif base_b is None or not any(l.startswith('R 1 ') for l in base_b):
+            if not (run.violations or run.capped):
+                raise common.HarnessError('burst differential: the paced baseline did not end in an R verdict: %r %s' % (base_b, status))
+        else:
+            for boundary in (4096, 8192):
+                for o in range(0, len(conv_b) + 1):
+                    if run.out_of_time(45):
+                        run.cap('burst differential stopped at offset %d of boundary %d' % (o, boundary))
+                        break
+                    f = filler(boundary - o)
+                    if len(f) != boundary - o:
+                        continue
+                    res, status, err, ex = srv.trace([('L', f + conv_b)], 0)
+                    nb += 1
+                    got = about1_flat(res) if status == 'ok' else status
+                    if got != base_b and any(p.startswith('C07') for p in prefixes):
+                        run.violation('C07.burst', 'client 1 behind %d bytes of client 2\'s traffic in one burst (read boundary %d at byte %d of its own lines, inside %r): %r; paced: %r'
+                                      % (len(f), boundary, o, conv_b[max(0, o - 20):o + 20], got, base_b),
+                                      {'engine': 'E1-direct', 'conf': conf, 'burst_filler_bytes': len(f), 'offset': o}, dedup='burst|%d' % boundary)
+    return {'direct_differential_traces': n, 'direct_differential_histories': {'client1': list(X), 'client2': list(Y)}, 'burst_boundary_offsets_tried': nb, 'three_client_interleavings': n3}
 
 
 def replay(obj):
